@@ -46,6 +46,7 @@ func runC14(w *W, i uint64) {
 	}
 	stdAnch, _ := regexp.Compile(`\A(?:` + c.Pattern + `)`)
 	stdFull, _ := regexp.Compile(`\A(?:` + c.Pattern + `)\z`)
+	stdEndAnch, _ := regexp.Compile(`(?:` + c.Pattern + `)\z`)
 	look := hasLook(re)
 	fwd, err := nfa.NewDefaultCompiler().CompileRegexp(re)
 	if err != nil {
@@ -159,6 +160,13 @@ func runC14(w *W, i uint64) {
 				cmp("PikeVM.SearchBetween", "-", h, at, C(func() string { return span(vm.SearchBetween(h, at, len(h))) }), betweenWant(r.span, at, len(h)))
 			}
 			if at == 0 {
+				cmp("PikeVM.SearchAll", "-", h, at, C(func() string {
+					var a [][]int
+					for _, m := range vm.SearchAll(h) {
+						a = append(a, []int{m.Start, m.End})
+					}
+					return obs.Ints2(a)
+				}), obs.Ints2(std.FindAllIndex(h, -1)))
 				cmp("PikeVM.Search", "-", h, at, C(func() string { return span(vm.Search(h)) }), r.span)
 				cmp("PikeVM.IsMatch", "-", h, at, C(func() string { return fmt.Sprint(vm.IsMatch(h)) }), fmt.Sprint(r.exists))
 				cmp("PikeVM.SearchWithCaptures", "-", h, at, C(func() string { return capsOf(vm.SearchWithCaptures(h)) }), r.caps)
@@ -172,6 +180,20 @@ func runC14(w *W, i uint64) {
 				}
 			} else {
 				w.Count("event:backtracker-declined(CanHandle=false)", 1)
+			}
+		}
+	}
+
+	// ---- bounded backtracker beyond its capacity: the reference answer or an explicit decline is required;
+	// the entry points have no way to decline, so a silent "no match" for a haystack that matches is reported
+	if btS := nfa.NewBoundedBacktrackerSmall(fwd); btS.MaxInputSize() < 200_000 && len(hs) > 0 {
+		base := hs[0]
+		if m := std.FindIndex(base); m != nil {
+			big := append(append([]byte(nil), base...), bytesOf('\n', btS.MaxInputSize()+10)...)
+			if want := std.FindIndex(big); want != nil && !btS.CanHandle(len(big)) {
+				st := nfa.NewBacktrackerState()
+				cmp("Backtracker.SearchWithState(over capacity)", "-", base, 0, C(func() string { return span(btS.SearchWithState(big, st)) }), fmt.Sprint(want))
+				cmp("Backtracker.IsMatchWithState(over capacity)", "-", base, 0, C(func() string { return fmt.Sprint(btS.IsMatchWithState(big, st)) }), "true")
 			}
 		}
 	}
@@ -213,6 +235,17 @@ func runC14(w *W, i uint64) {
 				cmp("lazy.FindAt", name, h, at, C(func() string { return strconv.Itoa(d.FindAt(cache, h, at)) }), r.end)
 				cmp("lazy.SearchAtAnchored", name, h, at, C(func() string { return strconv.Itoa(d.SearchAtAnchored(cache, h, at)) }), r.anchEnd)
 				cmp("lazy.IsMatchAt", name, h, at, C(func() string { return fmt.Sprint(d.IsMatchAt(cache, h, at)) }), fmt.Sprint(r.exists))
+				if !look && stdEndAnch != nil && len(h) <= 64 {
+					// earliest-match mode: the smallest e such that some match ends at e (first match state reached)
+					earliest := -1
+					for e := at; e <= len(h); e++ {
+						if stdEndAnch.Match(h[at:e]) {
+							earliest = e
+							break
+						}
+					}
+					cmp("lazy.SearchFirstAt", name, h, at, C(func() string { return strconv.Itoa(d.SearchFirstAt(cache, h, at)) }), strconv.Itoa(earliest))
+				}
 				if at == 0 {
 					cmp("lazy.Find", name, h, at, C(func() string { return strconv.Itoa(d.Find(cache, h)) }), r.end)
 					cmp("lazy.IsMatch", name, h, at, C(func() string { return fmt.Sprint(d.IsMatch(cache, h)) }), fmt.Sprint(r.exists))
@@ -308,6 +341,14 @@ func triageC14(f *Failure) string {
 	if strings.HasPrefix(f.API, "onepass.") {
 		return "KF-C14-05" // one-pass DFA reports no match when bytes follow the match
 	}
+	switch {
+	case strings.HasPrefix(f.API, "Backtracker.") && strings.Contains(f.API, "(over capacity)"):
+		return "KF-C14-06" // silent "no match" instead of a decline when CanHandle is false
+	case f.API == "lazy.SearchFirstAt":
+		return "KF-C14-07" // earliest-match mode
+	case f.API == "PikeVM.SearchAll":
+		return "KF-C14-08" // adjacency rule of successive matches
+	}
 	// the first differing call is quoted in Got as: first: h="…" at=N got=… want=…
 	txt := f.Got
 	if k := strings.Index(txt, `first: h="`); k >= 0 {
@@ -331,4 +372,12 @@ func triageC14(f *Failure) string {
 		return "KF-C14-04" // captures of a repeated group whose last iteration is empty
 	}
 	return ""
+}
+
+func bytesOf(b byte, n int) []byte {
+	out := make([]byte, n)
+	for i := range out {
+		out[i] = b
+	}
+	return out
 }
